@@ -413,6 +413,17 @@ fn uint_family<const N: usize>(cx: &mut Cx, extra: usize) {
             cx.call(mk("NonZero<Uint>::from_u64", "nz", bits, &px, "na"), || out(&w(&NonZero::<Uint<N>>::from_u64(p).get())));
             cx.call(mk("From<NonZeroU64> for NonZero<Uint>", "nz", bits, &px, "na"), || out(&w(&NonZero::<Uint<N>>::from(p).get())));
         }
+        if N == 1 {
+            // a u128 that does not fit the type: the constructor may refuse (panic) but must never wrap an invalid value
+            for hi in [1u64, 3, 1 << 63, x[0] | 1] {
+                for lo in [0u64, x[0]] {
+                    let p = NonZeroU128::new(((hi as u128) << 64) | lo as u128).unwrap();
+                    let px = [lo, hi];
+                    cx.call(ev("mkfit", "NonZero<Uint>::from_u128(narrow)", "nz", bits).n("x", &px).s("z", "panic"), || out(&w(&NonZero::<Uint<N>>::from_u128(p).get())));
+                    cx.call(ev("mkfit", "From<NonZeroU128> for NonZero<Uint>(narrow)", "nz", bits).n("x", &px).s("z", "panic"), || out(&w(&NonZero::<Uint<N>>::from(p).get())));
+                }
+            }
+        }
         if N >= 2 {
             let v128 = (x[0] as u128) | ((x[1 % N] as u128) << 64);
             if let Some(p) = NonZeroU128::new(v128) {
